@@ -21,7 +21,7 @@ ASSUMPTIONS = [
     'Recursion is admitted without a decreases clause (exec_allows_no_decreases_clause): termination is not proved; stack_size_check may report the recursion limit at any node (agrees always allows RecursionLimit).',
     'The advice-decorating closure of the `in` arm is replaced by an opaque class-preserving function.',
     'C13 (psound.rs / rules.rs), assumed facts about values: the expression a value converts to (From<Value> for Expr) evaluates to that value under every environment, contains no unknown and is a record literal only for a record value with the same attribute names; a value whose type_of() is an entity type is an entity literal of that type; `==` on two entity literals is equality of the uids; mk_record (Value::record) of distinct (name, value) pairs is the record with exactly those attributes.',
-    'C13, assumed contracts: Expr::is_projectable (subexpressions().all(Lit|Unknown|Set|Var|Record)) is the recursive predicate projectable(); a residual returned by an extension function (the `unknown` constructor) has no typed unknown and is not a record literal; Expr::record over pairs whose names are the key order of some map yields a map with that key order and those values; the residual-building constructors (Expr::and/or/unary_app/binary_app/get_attr/has_attr/like/is_entity_type/ite_arc/set/call_extension_fn/unknown) produce the expression kind named in ctors.rs (and/or/is_entity_type: proved in unit builder).',
+    'C13, assumed contracts: Expr::subexpressions() yields exactly the nodes of the expression tree (is_sub; the ExprIterator stack loop itself is not under contract), from which Expr::is_projectable is PROVED to be the recursive predicate projectable(); a residual returned by an extension function (the `unknown` constructor) has no typed unknown and is not a record literal; Expr::record over pairs whose names are the key order of some map yields a map with that key order and those values; the residual-building constructors (Expr::and/or/unary_app/binary_app/get_attr/has_attr/like/is_entity_type/ite_arc/set/call_extension_fn/unknown) produce the expression kind named in ctors.rs (and/or/is_entity_type: proved in unit builder).',
     'C13, scope of the statement: a completion is total and of the declared kinds (refines / kinds_ok in psound.rs); the residual an environment holds for an unknown request variable or for an entity missing from a partial store is assumed to evaluate, under the completion, to the value the completion gives that variable / entity (this is how unknowns are named by EntityUIDEntry::evaluate and Entities::entity; those two functions are represented by uninterpreted views).',
 ]
 DERIVE = ['derive(Clone, Copy, PartialEq, Eq)']
@@ -116,6 +116,10 @@ ITEMS = [
     Raw(file='psound.rs', tag='spec'),
     Raw(file='rules.rs', tag='spec'),
 
+    Fn(EXPR, 'impl<T> Expr<T> > fn is_projectable', name='Expr::is_projectable', wrap='impl Expr', props=['C13'],
+       ensures=[('projectable', 'r == projectable(*self)')],
+       proof_start='proof { lemma_projectable_subs(*self); }',
+       rewrites=[ClosureRw(r'e', 'e: &Expr', ret='bool', ensures='b == proj_kind(e.expr_kind)', rname='b')]),
     Fn(EVAL, "impl<'e> Evaluator<'e> > fn interpret", wrap=W,
        ensures=[('sem', 'match sem(self, *slots, *e) { Res::Val(k) => (r is Ok && r->Ok_0.value == k) || (r is Err && r->Err_0 is RecursionLimit), Res::Unk => true, s => r is Err && agrees_pv(Err::<PartialValue, EvaluationError>(r->Err_0), s) }')]),
     Fn(EVAL, "impl<'e> Evaluator<'e> > fn evaluate", wrap=W, props=['C02', 'C01'],
@@ -141,7 +145,7 @@ ITEMS = [
        ]),
     Fn(EVAL, "impl<'e> Evaluator<'e> > fn partial_interpret_internal", wrap=W, attrs=NODEC + ['verifier::rlimit(300)', 'verifier::spinoff_prover'], props=['C02', 'C13'],
        ensures=[('sem', 'agrees_pv(r, sem(self, *slots, *expr))'), ('residual', 'psound(self, *slots, *expr, r)')],
-       proof_start="""broadcast use axiom_btreemap_order_ok, axiom_projectable, axiom_ext_residual;
+       proof_start="""broadcast use axiom_btreemap_order_ok, axiom_ext_residual;
         proof {
             lemma_node_rules(self, *slots, *expr); lemma_aux_rules(self, *slots);
             // the terms the contracts of eval_if / get_attr trigger on
@@ -247,8 +251,7 @@ ITEMS = [
     Fn(EVAL, "impl<'e> Evaluator<'e> > fn get_attr", wrap=W, attrs=NODEC, props=['C02', 'C13'],
        ensures=[('sem', 'agrees_pv(r, match sem(self, *slots, *expr) { Res::Val(k) => sem_get_attr(self, k, *attr), x => x })'),
                 ('residual', 'forall|e: Expr| #[trigger] ga_of(e, *expr, *attr) ==> psound(self, *slots, e, r)')],
-       proof_start="""broadcast use axiom_projectable;
-        proof {
+       proof_start="""proof {
             lemma_aux_rules(self, *slots); lemma_kind_rules(self, *slots);
             assert forall|e: Expr| #[trigger] ga_of(e, *expr, *attr) implies rules_getattr(self, *slots, e, *expr, *attr) by { lemma_rules_getattr(self, *slots, e, *expr, *attr); }
         }""",
